@@ -72,8 +72,35 @@ Definition in_window (s : st) (ct : N) : bool :=
 
 Definition grace_ok (iat ct : N) : bool := ct <? iat * NS + GRACE.
 
+(* `session_is_live` of check_oauth2_account_uuid_valid (since fix 8607e8e): a session past its
+   expiry is as dead as a revoked one, whether or not the plugin has swept it yet *)
+Definition live_at (ct : N) (s : sstate) : bool :=
+  match s with
+  | SRevoked => false
+  | SExpires e => ct <? e
+  | SNever => true
+  end.
+
 (* check_oauth2_account_uuid_valid = Ok(Some(entry)); there are no api token sessions *)
 Definition acct_valid (s : st) (sid : N) (parent : option N) (iat ct : N) : bool :=
+  in_window s ct &&
+  match find_os sid (o2s s) with
+  | Some o =>
+      if negb (live_at ct (os_state o)) then false else
+      match parent with
+      | None => true
+      | Some p =>
+          match lookup p (uats s) with
+          | Some us => live_at ct us
+          | None => grace_ok iat ct
+          end
+      end
+  | None => grace_ok iat ct
+  end.
+
+(* the same function BEFORE fix 8607e8e (documentation only, used by the C39_prefix_* facts):
+   only RevokedAt was looked at *)
+Definition acct_valid_prefix (s : st) (sid : N) (parent : option N) (iat ct : N) : bool :=
   in_window s ct &&
   match find_os sid (o2s s) with
   | Some o =>
@@ -520,12 +547,11 @@ Definition p_add_tok (p : pst) (i : N) (t : tok) : pst :=
   mkpst (p_codes p) ((i, t) :: p_toks p) (p_orig p) (set_cur (t_sid t) i (p_cur p))
         (p_dead p) (p_pdead p) (p_pexp p) (p_from p) (p_to p).
 
-(* VBad: the property fails on this output outside the two known classes; VKnown: it fails
-   inside one of them:
+(* VBad: the property fails on this output outside the known class; VKnown: it fails inside it:
      K1 same-second rotation: a rotated refresh token is accepted again because the rotation
-        happened within the clock second of its own issue;
-     K2 lapsed session: the token is accepted although its parent session (or its OAuth2
-        session) has EXPIRED, because nothing has modified the account since *)
+        happened within the clock second of its own issue.
+   (K2, a token accepted although its parent session or its OAuth2 session has EXPIRED, was a
+   second class until fix 8607e8e; it is an ordinary failure now.) *)
 Inductive verdict := VOk | VBad | VKnown.
 
 Definition pstep (h : N -> N) (cf : cfg) (i : N) (p : pst) (o : op) (r : res) : pst * verdict :=
@@ -579,11 +605,11 @@ Definition pstep (h : N -> N) (cf : cfg) (i : N) (p : pst) (o : op) (r : res) : 
                 | None => false
                 end &&
                 match req with Some rs => list_eqb (t_scopes t') rs | None => true end &&
-                negb (must_refuse_hard p t ct) in
+                negb (must_refuse p t ct) in
               let v := if negb ok_basic then VBad
-                       else if rotated p ti t && negb (same_second_rotation p ti t) then VBad
-                       else if rotated p ti t || must_refuse_lapsed p t ct then VKnown
-                       else VOk in
+                       else if rotated p ti t
+                            then (if same_second_rotation p ti t then VKnown else VBad)
+                            else VOk in
               (p_add_tok p i t', v)
           end
       | None =>
@@ -601,9 +627,8 @@ Definition pstep (h : N -> N) (cf : cfg) (i : N) (p : pst) (o : op) (r : res) : 
       (p, match r with
           | RIntro true sc =>
               match lookup tk (p_toks p) with
-              | Some t => if negb is_refresh && (secs ct <? t_aexp t) && negb (must_refuse_hard p t ct)
-                             && list_eqb sc (t_scopes t)
-                          then (if must_refuse_lapsed p t ct then VKnown else VOk) else VBad
+              | Some t => if negb is_refresh && (secs ct <? t_aexp t) && negb (must_refuse p t ct)
+                             && list_eqb sc (t_scopes t) then VOk else VBad
               | None => VBad
               end
           | _ => VOk
@@ -612,8 +637,8 @@ Definition pstep (h : N -> N) (cf : cfg) (i : N) (p : pst) (o : op) (r : res) : 
       (p, match r with
           | RUnit =>
               match lookup tk (p_toks p) with
-              | Some t => if (t_client t =? client) && (secs ct <? t_aexp t) && negb (must_refuse_hard p t ct)
-                          then (if must_refuse_lapsed p t ct then VKnown else VOk) else VBad
+              | Some t => if (t_client t =? client) && (secs ct <? t_aexp t) && negb (must_refuse p t ct)
+                          then VOk else VBad
               | None => VBad
               end
           | _ => VOk
@@ -654,7 +679,7 @@ Definition pcheck (c : case) : bool :=
   | CHist cf tab us steps => snd (pcheck_from (htab_fn tab) cf 0 (pst0 us) steps)
   end.
 
-(* known-finding classes: every failure of the history is K1 or K2 *)
+(* known-finding class: every failure of the history is K1 *)
 Definition known (c : case) : bool :=
   match c with
   | CHist cf tab us steps =>
